@@ -86,8 +86,12 @@ func (c *c03Case) Exec() {
 	}
 	c.Meta = metaOf(r.MetaData())
 	limit := len(c.KVs) + 3
-	for _, p := range c.Probes {
-		g := getOut{K: p}
+	// all probes go through one buffer that the caller re-encodes for each call (a reader must not keep the slice)
+	probeBuf := make([]byte, 0, 1024)
+	for _, pk := range c.Probes {
+		g := getOut{K: pk}
+		probeBuf = append(probeBuf[:0], pk...)
+		p := probeBuf
 		ok, err := r.Contains(p)
 		g.Contains, g.CErr = ok, errName(err)
 		v, err := r.Get(p)
